@@ -1,6 +1,8 @@
 package prop
 
 import (
+	tokenv1 "mods.irisnet.org/modules/token/types/v1"
+	tokentypes "mods.irisnet.org/modules/token/types"
 	cstypes "mods.irisnet.org/modules/coinswap/types"
 	sdkmath "cosmossdk.io/math"
 	"github.com/cosmos/cosmos-sdk/codec"
@@ -46,7 +48,7 @@ func init() {
 		Assume: []string{"dropped by the modules' own export code and therefore not compared: closed HTLCs, service requests/responses/earned fees, random results", "queries run on contexts with identical height and time (pending farm rewards depend on it)", "isolated imports skip crisis' genesis invariants because the defaulted modules' escrow balances no longer match by construction; the full import does not"},
 		Cases:  func(t string) int { return tierN(t, 4, 32) },
 		Run:    runExportImport,
-		RequireTotals: aliveTotals(map[string]int64{"probes-ok-on-source:mt": 1, "probes-ok-on-source:nft": 1, "probes-ok-on-source:token": 1, "probes-ok-on-source:coinswap": 1, "probes-ok-on-source:farm": 1, "checkpoints-with-ten-or-more-coinswap-pools": 1}),
+		RequireTotals: aliveTotals(map[string]int64{"probes-ok-on-source:mt": 1, "probes-ok-on-source:nft": 1, "probes-ok-on-source:token": 1, "probes-ok-on-source:coinswap": 1, "probes-ok-on-source:farm": 1, "checkpoints-with-ten-or-more-coinswap-pools": 1, "checkpoints-with-the-erc20-bridge-off-and-no-beacon": 1}),
 	})
 }
 
@@ -319,8 +321,30 @@ func runExportImport(run *ev.Run, c int) {
 			gs[banktypes.ModuleName] = cdc.MustMarshalJSON(&bg)
 		})
 	}
+	// every fourth case: a chain that never uses the ERC20 bridge - no beacon in genesis, no deployment ever, and the
+	// authority switches the bridge off after the set-up blocks (a switch left at its zero value must survive the import)
+	noBridge := c%4 == 2
+	if noBridge {
+		chain = newAllChainWith(run, seed, nil, time.Time{}, func(cdc codec.Codec, gs map[string]json.RawMessage) {
+			var st tokenv1.GenesisState
+			cdc.MustUnmarshalJSON(gs[tokentypes.ModuleName], &st)
+			st.Params.Beacon = ""
+			gs[tokentypes.ModuleName] = cdc.MustMarshalJSON(&st)
+		})
+		for _, w := range chain.ws {
+			if tw, ok := w.(*tokenWorkload); ok {
+				tw.NoERC20 = true
+			}
+		}
+	}
 	blocks := tierN(run.Tier, 125, 250)
 	for b := 1; b <= blocks; b++ {
+		if noBridge && b%20 == 18 {
+			if p := chain.r.K.Token.GetParams(chain.r.Ctx()); p.EnableErc20 {
+				p.EnableErc20 = false
+				chain.Extra = append(chain.Extra, chain.r.InjectRoute(chain.r.Acc(2), "c12-bridge-off", &tokenv1.MsgUpdateParams{Authority: chain.r.GovAddr.String(), Params: p}))
+			}
+		}
 		if len(manyDenoms) > 0 && b == 30 {
 			a := chain.r.Acc(3)
 			for _, d := range manyDenoms {
@@ -333,6 +357,9 @@ func runExportImport(run *ev.Run, c int) {
 			run.Note("block %d aborted: %v", br.Height, br.FinalErr)
 		}
 		if b%25 == 0 || b == blocks {
+			if p := chain.r.K.Token.GetParams(chain.r.Ctx()); !p.EnableErc20 && p.Beacon == "" {
+				run.Count("checkpoints-with-the-erc20-bridge-off-and-no-beacon", 1)
+			}
 			if n := len(chain.r.K.Coinswap.GetAllPools(chain.r.Ctx())); n >= 10 {
 				run.Count("checkpoints-with-ten-or-more-coinswap-pools", 1)
 			}
